@@ -51,14 +51,18 @@ func parsePreloadMap(s *schema.Schema, preloads map[string][]interface{}) map[st
 		value := strings.TrimPrefix(strings.TrimPrefix(name, preloadFields[0]), ".")
 		if preloadFields[0] == clause.Associations {
 			for _, relation := range s.Relationships.Relations {
-				if relation.Schema == s {
+				// a relation inside an embedded struct is reached through EmbeddedRelations below,
+				// naming it here as well would preload it twice
+				if relation.Schema == s && len(relation.Field.EmbeddedBindNames) <= 1 {
 					setPreloadMap(relation.Name, value, args)
 				}
 			}
 
 			for embedded, embeddedRelations := range s.Relationships.EmbeddedRelations {
 				for _, value := range embeddedValues(embeddedRelations) {
-					setPreloadMap(embedded, value, args)
+					// the conditions given with clause.Associations reach every relation as
+					// associationsConds, also inside embedded structs: not a second time here
+					setPreloadMap(embedded, value, nil)
 				}
 			}
 		} else {
